@@ -1078,3 +1078,82 @@ UNITS_C09 = {
     "REPOINT-CUR/_most_recent_snapshot_id": (h_most_recent, [f"{SM}:SnapshotManager._most_recent_snapshot_id"], _replay_lookup),
     "BY-TS/get_snapshot_by_timestamp": (h_by_timestamp, [f"{SM}:SnapshotManager.get_snapshot_by_timestamp"], _replay_lookup),
 }
+
+
+# =================================================================================== metadata (de)serialisation round trip
+def h_metadata_roundtrip(h: H):
+    """CODEC: _dict_to_metadata(_metadata_to_dict(m)) carries every field of m, of every snapshot, of every log entry and of every
+    schema over unchanged (field by field, for lists of unbounded length through an arbitrary element).  JSON itself (dumps/loads of
+    str-keyed dicts of JSON types) is T-json; what is checked here is that writer and reader agree on key names and drop nothing -
+    the WF invariant (C15) and snapshot identity (C09) survive a reopen only if they do."""
+    c = h.ctx
+    mm = h.obj("MetadataManager")
+    h.reg.modfuncs["json.dumps"] = lambda I, a, k: SStr(I.ctx.fresh_str("json"))
+    snap_attrs = ["snapshot_id", "timestamp_ms", "manifest_list", "parent_snapshot_id", "operation", "summary", "schema_id", "sequence_number"]
+    src = {}
+
+    def mk_snapshot(I):
+        cc = I.ctx
+        s = SObj("Snapshot", {"snapshot_id": SInt(cc.fresh_int("sid")), "timestamp_ms": SInt(cc.fresh_int("ts")), "manifest_list": SStr(cc.fresh_str("ml")),
+                              "parent_snapshot_id": SOpt(cc.fresh_bool("pn"), SInt(cc.fresh_int("p"))), "operation": SOpt(cc.fresh_bool("on"), SStr(cc.fresh_str("op"))),
+                              "summary": PDict({}), "schema_id": SOpt(cc.fresh_bool("scn"), SInt(cc.fresh_int("sc"))),
+                              "sequence_number": SOpt(cc.fresh_bool("sqn"), SInt(cc.fresh_int("sq")))}, label="some-snapshot")
+        src["snapshot"] = s
+        return s
+
+    def mk_entry(I):
+        e = SObj("HistoryEntry", {"timestamp_ms": SInt(I.ctx.fresh_int("ets")), "snapshot_id": SInt(I.ctx.fresh_int("esid"))}, label="some-entry")
+        src["entry"] = e
+        return e
+
+    def mk_schema(I):
+        s = SObj("Schema", {"schema_id": SInt(I.ctx.fresh_int("schema_id")), "fields": PList([]), "schema_string": SStr(I.ctx.fresh_str("schema_string"))}, label="some-schema")
+        # every constructed Schema has a non-empty schema_string (Schema.__post_init__ fills it with json.dumps(fields))
+        I.ctx.assume(z3.Length(s.fields["schema_string"].z) > 0)
+        src["schema"] = s
+        return s
+    scal = {"location": SStr(c.fresh_str("location")), "table_uuid": SStr(c.fresh_str("uuid")), "format_version": SInt(c.fresh_int("fv")),
+            "last_sequence_number": SInt(c.fresh_int("lsn")), "last_updated_ms": SInt(c.fresh_int("lum")), "last_column_id": SInt(c.fresh_int("lci")),
+            "current_schema_id": SInt(c.fresh_int("csid")), "default_spec_id": SInt(c.fresh_int("dsi")), "default_sort_order_id": SInt(c.fresh_int("dso")),
+            "properties": PDict({}), "current_snapshot_id": SOpt(c.fresh_bool("cur_none"), SInt(c.fresh_int("cur"))),
+            "metadata_log": TheoryObj("symiter", label="metadata_log", fields={"mk": lambda I: PDict({})})}
+    # TableMetadata.__post_init__ replaces a current_schema_id of 0 by the first schema's id: identity for well-formed metadata
+    # (current id names a listed schema; the library keeps one schema per table); stated as a precondition
+    h.assume(scal["current_schema_id"].z != 0, "WF-SCHEMA: current_schema_id is the id of the table's schema, 0 only if that schema's id is 0")
+    m = SObj("TableMetadata", dict(scal, schemas=TheoryObj("symiter", fields={"mk": mk_schema}), partition_specs=PList([]), sort_orders=PList([]),
+                                   snapshots=TheoryObj("symiter", fields={"mk": mk_snapshot}), snapshot_log=TheoryObj("symiter", fields={"mk": mk_entry})), label="m")
+    out, d = h.run(f"{MM}:MetadataManager._metadata_to_dict", [mm, m])
+    h.ensure("CODEC:_metadata_to_dict-never-raises", out == "ok", detail=repr(d) if out != "ok" else "")
+    if out != "ok":
+        return
+    out2, m2 = h.run(f"{MM}:MetadataManager._dict_to_metadata", [mm, d])
+    h.ensure("CODEC:_dict_to_metadata-reads-back-what-_metadata_to_dict-wrote(no-missing-key)", out2 == "ok", detail=repr(m2) if out2 != "ok" else "")
+    if out2 != "ok":
+        return
+    for k, v in scal.items():
+        h.ensure(f"CODEC:field-{k}-survives-the-round-trip", m2.fields.get(k) is v)
+
+    def rep_of(lst):
+        return lst.fields.get("rep") if isinstance(lst, TheoryObj) and lst.theory == "symiter" else None
+    rs = rep_of(m2.fields.get("snapshots"))
+    if "snapshot" in src:
+        h.ensure("CODEC:every-snapshot-is-read-back-as-a-Snapshot", isinstance(rs, SObj) and rs.cls == "Snapshot")
+        if isinstance(rs, SObj):
+            for a in snap_attrs:
+                h.ensure(f"CODEC:snapshot.{a}-survives-the-round-trip", rs.fields.get(a) is src["snapshot"].fields[a])
+    re_ = rep_of(m2.fields.get("snapshot_log"))
+    if "entry" in src and isinstance(re_, SObj):
+        for a in ("timestamp_ms", "snapshot_id"):
+            h.ensure(f"CODEC:snapshot_log.{a}-survives-the-round-trip", re_.fields.get(a) is src["entry"].fields[a])
+    elif "entry" in src:
+        h.fail("CODEC:every-log-entry-is-read-back-as-a-HistoryEntry")
+    rsc = rep_of(m2.fields.get("schemas"))
+    if "schema" in src and isinstance(rsc, SObj):
+        for a in ("schema_id", "fields", "schema_string"):
+            h.ensure(f"CODEC:schema.{a}-survives-the-round-trip", rsc.fields.get(a) is src["schema"].fields[a])
+    elif "schema" in src:
+        h.fail("CODEC:every-schema-is-read-back-as-a-Schema")
+    h.cover("CODEC:non-empty-lists-reachable", z3.BoolVal("snapshot" in src and "entry" in src and "schema" in src))
+
+
+UNITS["CODEC/metadata-roundtrip"] = (h_metadata_roundtrip, [f"{MM}:MetadataManager._metadata_to_dict", f"{MM}:MetadataManager._dict_to_metadata"], _replay_wf)
